@@ -33,6 +33,8 @@ type F struct {
 	seqs     []SeqRef
 	seqsDone bool
 	memo     map[string]*F
+	exDone   bool
+	hasEx    bool
 	// OnAssume, when set on a positive forall, installs the fact by other means than instantiation (frameElems: render-time
 	// pattern facts on the current base arrays); it reports whether it could
 	OnAssume func(st *State, guard string) bool
@@ -40,6 +42,9 @@ type F struct {
 
 // body instantiates the quantifier body (memoised: the same term always yields the same formula)
 func (f *F) body(t string) *F {
+	if strings.Contains(t, "?probe") {
+		return f.Body(t) // probe evaluations record which sequences the variable indexes: a side effect, never memoised
+	}
 	if b, ok := f.memo[t]; ok {
 		return b
 	}
@@ -526,7 +531,12 @@ func (x *Exec) proveNNF(fr *Frame, st *State, name, kind string, f *F, in ssa.In
 			x.emit(fr, s2, name, kind, atom(sOr(ds...)), in)
 			return
 		}
-		cands := x.candidates(f, x.extTerms(st.idx))
+		// assumptions of the form forall a. ... exists b. P(a, b) supply witnesses: instantiate them eagerly at the terms of this
+		// path (on a copy of the state); assumeG skolemises the existential and registers the skolem as an index term, which then
+		// is a candidate witness for the goal
+		st2, witnesses := x.eagerWitnesses(st)
+		st = st2
+		cands := append(witnesses, x.candidates(f, x.extTerms(st.idx))...)
 		cands = append(cands, f.Lo, sSub(f.Hi, "1"))
 		if len(cands) > 24 {
 			cands = cands[:24]
@@ -539,6 +549,82 @@ func (x *Exec) proveNNF(fr *Frame, st *State, name, kind string, f *F, in ssa.In
 		return
 	}
 	x.emit(fr, st, name, kind, atom(render(f)), in)
+}
+
+func (x *Exec) eagerWitnesses(st *State) (*State, []string) {
+	var todo []*F
+	for _, it := range st.pc {
+		if it.QF != nil && it.QF.Op == "forall" && it.QF.Sort == "" && x.bodyHasExists(it.QF) {
+			todo = append(todo, it.QF)
+		}
+	}
+	if len(todo) == 0 {
+		return st, nil
+	}
+	s2 := st.clone()
+	terms := x.extTerms(st.idx)
+	nIdx := len(s2.idx)
+	for _, q := range todo {
+		n := 0
+		for _, t := range x.candidates(q, terms) {
+			// only at the skolem constants of the goal (its universally quantified variables), not at their neighbours
+			if !strings.HasPrefix(t, "sk.") || strings.ContainsAny(t, " (") {
+				continue
+			}
+			if n++; n > 3 {
+				break
+			}
+			key := "eager|" + render(q) + "|" + t
+			if s2.qfSeen[key] {
+				continue
+			}
+			s2.qfSeen[key] = true
+			x.assumeG(s2, q.guard(t), q.body(t))
+		}
+	}
+	// the witnesses serve the existential goal only: they are not index terms for the other quantified assumptions (each one
+	// would multiply the instances of every nested forall)
+	var ws []string
+	for _, it := range s2.idx[nIdx:] {
+		ws = append(ws, it.T)
+	}
+	s2.idx = s2.idx[:nIdx]
+	return s2, ws
+}
+
+// bodyHasExists: does the body of a universally quantified assumption contain an existential (in positive position, NNF)?
+func (x *Exec) bodyHasExists(f *F) bool {
+	if f.exDone {
+		return f.hasEx
+	}
+	f.exDone = true
+	func() {
+		defer func() { recover() }()
+		var walk func(g *F, depth int) bool
+		walk = func(g *F, depth int) bool {
+			switch g.Op {
+			case "exists":
+				return true
+			case "forall":
+				if depth > 2 {
+					return false
+				}
+				return walk(g.body(g.Var+"?probe"), depth+1)
+			}
+			for _, k := range g.Kids {
+				if walk(k, depth) {
+					return true
+				}
+			}
+			return false
+		}
+		saved, savedVar := x.probe, x.probeVar
+		var sink []SeqRef
+		x.probe, x.probeVar = &sink, f.Var+"?probe"
+		defer func() { x.probe, x.probeVar = saved, savedVar }()
+		f.hasEx = walk(f.body(f.Var+"?probe"), 0)
+	}()
+	return f.hasEx
 }
 
 func (st *State) addIdxFront(t string) {
